@@ -645,6 +645,25 @@ func scenarios(thorough bool) []scen {
 			}
 		}
 	}
+	// 2b. thorough: every MTU of two bands (the minimum and up, the maximum and down) with a long module list and
+	// values several messages long in both directions
+	if thorough {
+		var band []uint16
+		for m := 1300; m <= 1560; m++ {
+			band = append(band, uint16(m))
+		}
+		for m := 65400; m <= 65535; m += 3 {
+			band = append(band, uint16(m))
+		}
+		for _, m := range band {
+			add(scen{Label: "band-modules", RecvMTU: m, SendMTU: m, Extra: 150, ExtraLen: 12,
+				Owner:  []oModSpec{{Name: "m1", Rounds: [][]msgSpec{{{Name: "go", Size: 3, Seed: 1}}}}},
+				Device: []dModSpec{baseDevice("m1", map[string][]msgSpec{"go": {{Name: "r", Size: 5, Seed: 2}}}, nil)}})
+			add(scen{Label: "band-long", RecvMTU: m, SendMTU: uint16(1300 + (int(m)*7)%64000),
+				Owner:  []oModSpec{{Name: "m1", Rounds: [][]msgSpec{{{Name: "blob", Size: 2*int(m) + 17, Seed: 1}, {Name: "go", Size: 2, Seed: 3}}}, Block: []bool{true}}},
+				Device: []dModSpec{baseDevice("m1", map[string][]msgSpec{"go": {{Name: "back", Size: 2*int(m) + 11, Seed: 2, Splits: 4, Yield: true}, {Name: "t", Size: 1, Seed: 9}}}, nil)}})
+		}
+	}
 	// 3. module structure: several modules, owner-only, device-only, idle rounds, yield output, done with last data
 	two := func(p pair, variant int) scen {
 		s := scen{Label: fmt.Sprintf("structure-%d", variant), RecvMTU: p.recv, SendMTU: p.send, Extra: 2, ExtraLen: 6}
